@@ -775,7 +775,12 @@ fn families(l: &Lang, thorough: bool) -> Acc {
     // bracketed selections inside filters inside bracketed selections (the conversion of the outer list is suspended
     // while the inner one is converted)
     {
-        let inner = ["@[0,1]", "@['a','b']", "@[1:2,0]", "count(@[0,1])==2", "@[?@[0,1]]", "@[0,?@[1,2],3]", "$[0,1]", "@[0,1][2,3]"];
+        // ... including inner selections of exactly one selector in the places that demand a singular query (an inner
+        // selection that picks up anything from the suspended outer one stops being singular)
+        let inner = [
+            "@[0,1]", "@['a','b']", "@[1:2,0]", "count(@[0,1])==2", "@[?@[0,1]]", "@[0,?@[1,2],3]", "$[0,1]", "@[0,1][2,3]",
+            "@['a']", "!@[0]", "@['a']==1", "@[0]==$['a']", "length(@['a'])>1", "match(@[0],'b')", "search(@.b[\"a\"],@[0])", "count(@['a'])==1", "value(@[0])==1", "length(@.b['a'])>=1",
+        ];
         for a in inner {
             for b in inner {
                 for c in [format!("$[0,?{},1]", a), format!("$[?{},?{}]", a, b), format!("$['x',?{}&&{},2:3]", a, b), format!("$..[?{},*,?{}]", a, b), format!("$[?{}][?{},0]", a, b)] {
@@ -1073,6 +1078,9 @@ pub fn run(prop: &str, tier: &str) -> i32 {
         total = total.merge(a);
         let t0 = std::time::Instant::now();
         let a = stage("regular-expression pattern pipeline (stress patterns and nesting ladders 1..300)", crate::checks::robust::regex_patterns(&run), t0);
+        total = total.merge(a);
+        let t0 = std::time::Instant::now();
+        let a = stage("functions over lists (sizes around sort / search thresholds x 9 element mixes x arrangements)", crate::checks::robust::list_functions(&run), t0);
         total = total.merge(a);
         let t0 = std::time::Instant::now();
         let a = stage("depth ladder (isolated subprocesses)", crate::checks::robust::ladder(&run), t0);
